@@ -170,6 +170,37 @@ def run(worker, sl, maxn, hours):
     sh(f"git -C {wt} checkout -q -- .")
 
 
+ANALYSIS = {
+    ("frost-rerandomized/src/lib.rs", 75): "not observable: the `Randomize` trait is private and the randomized KeyPackage's verifying share is never read by `sign`",
+    ("frost-core/src/keys/dkg.rs", 365): "outside the listed properties: validation of the caller's *own* (n, t) in dkg::part1 (C06 states it for the dealer only; C14 covers peer material only)",
+    ("frost-core/src/keys/refresh.rs", 186): "outside the listed properties: validation of the caller's own (n, t) in refresh_dkg_part1",
+    ("frost-core/src/lib.rs", 516): "equivalent: an identity commitment is already refused when the binding factor input is encoded (identity does not serialize)",
+    ("frost-core/src/lib.rs", 300): "equivalent: every public caller passes a non-empty set (checked earlier)",
+    ("frost-core/src/lib.rs", 323): "equivalent: every public caller checks membership first",
+    ("frost-core/src/serialization.rs", 416): "outside the listed properties: duplicate member in the JSON form of PublicKeyPackage (C12 speaks about round trip, canonical fixed-size encodings and the listed rejections)",
+    ("frost-core/src/serialization.rs", 425): "outside the listed properties: duplicate JSON member (see above)",
+    ("frost-core/src/serialization.rs", 435): "outside the listed properties: duplicate JSON member (see above)",
+    ("frost-core/src/serialization.rs", 445): "outside the listed properties: duplicate JSON member (see above)",
+    ("frost-core/src/keys/dkg.rs", 569): "equivalent up to the error kind: the key-set comparison a few lines later refuses the same inputs",
+    ("frost-core/src/keys/dkg.rs", 572): "equivalent up to the error kind (see above)",
+    ("frost-core/src/keys/dkg.rs", 575): "equivalent up to the error kind (see above)",
+    ("frost-ristretto255/src/lib.rs", 110): "equivalent for the properties: *encoding* the identity is refused twice over (explicit identity checks in the callers); decoding still rejects it",
+    ("frost-ed448/src/lib.rs", 110): "equivalent for the properties (see ristretto255)",
+    ("frost-ed25519/src/lib.rs", 110): "equivalent for the properties (see ristretto255)",
+    ("frost-secp256k1-tr/src/lib.rs", 711): "was a real miss: `GroupCommitment::into_even_y` (public EvenY helper, unused internally). C18 now checks the helper on every implementing type and kills it",
+    ("frost-core/src/scalar_mul.rs", 104): "equivalent: another valid signed-digit representation of the same scalar",
+    ("frost-core/src/scalar_mul.rs", 84): "equivalent: both branches compute the same bits at the boundary",
+    ("frost-core/src/scalar_mul.rs", 79): "equivalent: one more iteration over a zero digit",
+    ("frost-core/src/signature.rs", 83): "equivalent: only a capacity hint",
+    ("frost-core/src/keys/repairable.rs", 122): "equivalent up to the error kind: the Lagrange computation refuses an identifier outside the set",
+    ("frost-core/src/keys/refresh.rs", 248): "equivalent at the level of the property: refresh_dkg_shares repeats the count check, the refresh still fails",
+    ("frost-core/src/keys.rs", 871): "not reachable through the public API with a wrong coefficient count",
+    ("frost-core/src/keys.rs", 844): "equivalent up to the error kind: n < 2 with t >= 2 is refused by the t > n test (the existing tests pin the kind)",
+    ("frost-core/src/keys.rs", 869): "redundant second validation in an internal function (public entry points validate first); the existing tests call the internal function",
+    ("frost-core/src/keys.rs", 978): "duplicate packages given to reconstruct: with the check gone the result is a wrong key, not the group key - C03/C06 state nothing about the error",
+}
+
+
 def report():
     recs = {}
     for f in sorted(x for x in os.listdir(OUT) if x.startswith("results.")):
@@ -190,7 +221,7 @@ def report():
         lines += [f"## {verdict}", "", "| file:line | kind | old | new | note |", "|---|---|---|---|---|"]
         for r in sorted(recs, key=lambda r: (r["file"], r["line"])):
             if r["verdict"] == verdict:
-                note = r.get("analysis", "")
+                note = ANALYSIS.get((r["file"], r["line"]), r.get("analysis", ""))
                 lines.append(f"| {r['file']}:{r['line']} | {r['kind']} | `{r['old'].strip()[:90]}` | `{r['new'].strip()[:90]}` | {note} |")
         lines.append("")
     open(os.path.join(OUT, "REPORT.md"), "w").write("\n".join(lines))
